@@ -133,6 +133,23 @@ func New(hydrunInterface hydraidego.Hydraidego) Hydrex {
 // This method ensures full consistency between the stored data and all reverse indices.
 func (h *hydrex) Save(ctx context.Context, indexName string, domain string, items map[string]*CoreData) {
 
+	// An empty index name or domain cannot be addressed consistently (the SDK refuses empty
+	// record keys, so only half of the data would be written): refuse the whole call.
+	if indexName == "" || domain == "" {
+		slog.Error("hydrex.Save: index name and domain must not be empty", "indexName", indexName, "domain", domain)
+		return
+	}
+	if _, ok := items[""]; ok {
+		slog.Error("hydrex.Save: an item with an empty key is ignored", "indexName", indexName, "domain", domain)
+		cleaned := make(map[string]*CoreData, len(items))
+		for k, v := range items {
+			if k != "" {
+				cleaned[k] = v
+			}
+		}
+		items = cleaned
+	}
+
 	// get the current core data for the domain
 	existingCoreData := make(map[string]*CoreData)
 
